@@ -214,7 +214,7 @@ func handMessages() []*schema_testpb.FullSchema {
 func runC08(cfg *vh.Config) error {
 	res := vh.NewResult("C08", cfg.Seed)
 	res.Rule = "messages of test.schema.v1.FullSchema (and its oneof/nested types as roots) and of generated dynamic descriptors, filled through protoreflect: hand-written one-field messages for every field class; random messages with integer boundaries, escapes / controls / non-BMP text, every oneof arm, maps, arrays, nesting depth 1-5, optional-with-zero, both Any flavours; a wide stream with NaN/Inf, years < 1 and > 9999, months/days out of range, timestamps outside 0001-9999 and with denormal nanos; a malformed stream (invalid UTF-8, undefined enum numbers, unknown Any types); library streams for appendString, FormatInt, base64, time.Format, DateString, JSON validity. non-trivial = distinct (type, message) other than the empty message"
-	targets, err := loadTargets()
+	targets, nFixed, err := loadTargets(cfg, res)
 	if err != nil {
 		return err
 	}
@@ -261,6 +261,16 @@ func runC08(cfg *vh.Config) error {
 		m := t.New()
 		g.fill(m, 1)
 		er.encodeCase("message", t, m, true)
+	}
+	// messages of the schemas generated for this run (compiled j5s packages, raw descriptors)
+	if gen := targets[nFixed:]; len(gen) > 0 {
+		for i := 0; i < cfg.Scale(300, 8000); i++ {
+			t := vh.Pick(r, gen)
+			g := &msgGen{r: r, maxDepth: r.Range(1, 4), fieldPct: vh.Pick(r, []int{20, 40, 70}), maxEntries: r.Range(1, 3), emptySubs: vh.Pick(r, []int{0, 10, 30}), wide: r.Chance(15)}
+			m := t.New()
+			g.fill(m, 1)
+			er.encodeCase("generated-schema", t, m, true)
+		}
 	}
 	nWide := cfg.Scale(250, 6000)
 	for i := 0; i < nWide; i++ {
